@@ -1123,6 +1123,16 @@ enum ExpressionSide {
     Right,
 }
 
+/// The context of the left operand of a binary operator when hanging an expression.
+/// The left operand of `^` must keep its parentheses if it is a unary operation: `(-X) ^ Y`
+fn hanging_lhs_context(binop: &BinOp) -> ExpressionContext {
+    if let BinOp::Caret(_) = binop {
+        ExpressionContext::BinaryLHSExponent
+    } else {
+        ExpressionContext::UnaryOrBinary
+    }
+}
+
 fn hang_binop_expression(
     ctx: &Context,
     expression: Expression,
@@ -1142,6 +1152,11 @@ fn hang_binop_expression(
             let same_op_level = binop.precedence() == top_binop.precedence()
                 && binop.is_right_associative() == top_binop.is_right_associative();
             let is_right_associative = binop.is_right_associative();
+
+            // The operands sit to the left and to the right of this operator, whatever the context of the
+            // whole expression is
+            let lhs_context = hanging_lhs_context(&binop);
+            let rhs_context = ExpressionContext::UnaryOrBinary;
 
             let test_shape = if same_op_level {
                 shape
@@ -1188,7 +1203,7 @@ fn hang_binop_expression(
                                 },
                                 lhs_shape,
                                 lhs_range,
-                                expression_context,
+                                lhs_context,
                             ),
                             if contains_comments(&*rhs) {
                                 hang_binop_expression(
@@ -1197,7 +1212,7 @@ fn hang_binop_expression(
                                     binop,
                                     shape,
                                     lhs_range,
-                                    expression_context,
+                                    rhs_context,
                                 )
                             } else {
                                 format_expression_internal(
@@ -1216,7 +1231,7 @@ fn hang_binop_expression(
                                     binop.clone(),
                                     shape,
                                     lhs_range,
-                                    expression_context,
+                                    lhs_context,
                                 )
                             } else {
                                 let context = if let BinOp::Caret(_) = binop {
@@ -1232,7 +1247,7 @@ fn hang_binop_expression(
                                 if same_op_level { top_binop } else { binop },
                                 rhs_shape,
                                 lhs_range,
-                                expression_context,
+                                rhs_context,
                             ),
                         ),
                     };
@@ -1251,7 +1266,7 @@ fn hang_binop_expression(
                             binop.to_owned(),
                             shape,
                             lhs_range,
-                            expression_context,
+                            lhs_context,
                         )
                     } else {
                         let context = if let BinOp::Caret(_) = binop {
@@ -1269,7 +1284,7 @@ fn hang_binop_expression(
                             binop,
                             shape,
                             lhs_range,
-                            expression_context,
+                            rhs_context,
                         )
                     } else {
                         format_expression_internal(
@@ -1439,7 +1454,7 @@ fn format_hanging_expression_(
                 binop.to_owned(),
                 shape,
                 lhs_range,
-                ExpressionContext::UnaryOrBinary,
+                hanging_lhs_context(binop),
             );
 
             let current_shape = shape.take_last_line(&lhs) + 1; // 1 = space before binop
@@ -1453,7 +1468,7 @@ fn format_hanging_expression_(
                 binop.to_owned(),
                 singleline_shape,
                 None,
-                ExpressionContext::Standard,
+                ExpressionContext::UnaryOrBinary,
             );
 
             // Examine the last line to see if we need to hang this binop, or if the precedence levels match
@@ -1472,7 +1487,7 @@ fn format_hanging_expression_(
                     binop.to_owned(),
                     hanging_shape,
                     None,
-                    ExpressionContext::Standard,
+                    ExpressionContext::UnaryOrBinary,
                 )
                 .update_leading_trivia(FormatTriviaType::Replace(Vec::new()));
             }
